@@ -14,7 +14,8 @@ PROPS_FILE = 'Props/C14.v'
 RULE = ('Arrays of rank 1-4 (1-6 thorough), extents 1-7, every form of dims / dim_units / dim_names (None, shorter, equal, longer than '
         'rank; entries None, int, float, int/float/mixed pair, tuple, numpy array, full linear / non-linear / nearly linear / '
         'decreasing / constant vectors, steps such as 0.1, 1/3, 1e-17, 1e300, denormal), later set_dim / set_dim_units / set_dim_name '
-        'calls incl. out-of-range axes, stack arrays with True / full / partial / too-long labels; dim vectors compared bit-exactly '
+        'calls incl. out-of-range axes, the get_dim / get_dim_units / get_dim_name accessors after every step, label and (label, index...) '
+        'indexing, stack arrays with True / full / partial / too-long labels; dim vectors compared bit-exactly '
         'with the PrimFloat model; non-trivial = distinct cases with at least one pair/number entry or a stack')
 MODELLED = ["numpy's start + step*np.arange(n) is written out elementwise in binary64 (PrimFloat)", 'bulk data is not modelled here']
 ASSUMPTIONS = ['integer dim entries within int64']
@@ -99,6 +100,9 @@ def oracle(case, obs):
     e = invariants(o, ds, stack)
     if e:
         return {'key': 'one-dim-vector-per-axis', 'what': e}
+    for oo in [o] + [x['arr'] for x in obs['ops'] if x.get('arr')] + [s['arr'] for x in obs['ops'] for s in x.get('slices', []) if s.get('arr')]:
+        if oo.get('accessors'):
+            return {'key': 'dim-accessors', 'what': oo['accessors']}
     dims = case['dims'] or []
     for n in range(rank):
         spec = dims[n] if n < len(dims) else None
@@ -164,6 +168,8 @@ def oracle(case, obs):
                     continue
                 if not s['same_as_i']:
                     return {'key': 'label-addresses-wrong-slice', 'what': f"ar[{s['label']!r}] is not slice {s['i']}"}
+                if s.get('tuple_index') is False:
+                    return {'key': 'label-tuple-index', 'what': f"ar[{s['label']!r}, i, ...] is not ar[{s['label']!r}].data[i, ...]"}
                 cur = obs['init'] if not any(x.get('arr') for x in obs['ops'][:obs['ops'].index(oo)]) else [x['arr'] for x in obs['ops'][:obs['ops'].index(oo)] if x.get('arr')][-1]
                 a = s['arr']
                 if a['dims'] != cur['dims'] or a['units'] != cur['units'] or a['names'] != cur['names'] or a['shape'] != cur['shape']:
